@@ -149,9 +149,10 @@ theorem consumeIdOrKeyword_ok (p : Pos) (prevTok : Option Token) (c : Ch) (rest 
   by_cases helse : ((takeIdChars (c :: rest)).map (·.cp) == elseCps) = true
   · simp only [helse, if_true]
     simp only [beq_iff_eq] at helse
-    by_cases h7 : startsWith elseIfCps (c :: rest) = true
+    by_cases h7 : (startsWith elseIfCps (c :: rest) && elseIfBoundary (c :: rest)) = true
     · simp only [h7, if_true]
-      exact ⟨⟨_, _, rfl⟩, consumes_ascii true (startsWith_asciiRun elseIfCps _ h7 (by decide))⟩
+      have h7' : startsWith elseIfCps (c :: rest) = true := (Bool.and_eq_true _ _ ▸ h7).1
+      exact ⟨⟨_, _, rfl⟩, consumes_ascii true (startsWith_asciiRun elseIfCps _ h7' (by decide))⟩
     · simp only [h7]
       exact ⟨⟨_, _, rfl⟩, consumes_ascii true (idCps_asciiRun (k := elseCps) helse (by decide))⟩
   · simp only [helse]
